@@ -219,7 +219,7 @@ def instantiate(ip, cls, args, kwargs):
         return to_list(ip, args[0])
     if cls is dict:
         if not args and not kwargs:
-            return ip.new_dict({})
+            return prims.new_heap_dict(ip)
         raise Unsupported("dict(...) with arguments")
     if cls is str:
         if not args:
@@ -336,6 +336,8 @@ def b_len(ip, v):
         return prims.mk_int(ip, c.heap.get("dn")[v.t])
     if prims.is_strv(v):
         return prims.mk_int(ip, z3.Length(v.t))
+    if type(v).__name__ == "SplitV":
+        return prims.mk_int(ip, c.heap.get("llen")[v.as_list(ip)])
     if isinstance(v, Sym) and v.t.sort() == Val:
         raise Unsupported("len() of untyped symbolic value")
     ip.py_raise(TypeError, f"object of type '{type(v).__name__}' has no len()")
